@@ -83,6 +83,22 @@ def gen_case(rng: random.Random, k: int) -> Dict[str, Any]:
             v = replace(v, driver_state=HumanAvailable(attr) if avail else HumanUnavailable(attr))
             sim = simulation_state_ops.modify_vehicle_safe(sim, v).unwrap()
             drivers.append([n.get("veh", vid), [n.get("sched", sched), avail]])
+    # in half of the cases the vehicles are busy (any activity, set directly): availability follows the
+    # clock whatever the vehicle is doing (the whole-step dispatcher probe is left out on such states)
+    inject = rng.random() < 0.5
+    if inject:
+        from .hist import random_state
+
+        for vid in sorted(sim.vehicles.keys()):
+            if rng.random() < 0.6:
+                try:
+                    if rng.random() < 0.4 and not sim.requests:
+                        sim = simulation_state_ops.add_request_safe(sim, w.new_request(sim)).unwrap()
+                    st_ = random_state(w, sim, vid, rng)
+                    v = replace(sim.vehicles[vid], vehicle_state=st_)
+                    sim = simulation_state_ops.modify_vehicle_safe(sim, v).unwrap()
+                except Exception:
+                    pass
     sim_enc = enc_sim(n, sim)
     dispatcher = Dispatcher(env.config.dispatcher)
     obs: List[Dict[str, Any]] = []
@@ -108,7 +124,7 @@ def gen_case(rng: random.Random, k: int) -> Dict[str, Any]:
         # StepSimulation.update from the state the step started in (driver phase, generators,
         # instruction stack, application - as the runner wires them); the result is discarded,
         # what is kept is which trips were handed out and whether the driver was on shift then
-        if rng.random() < 0.35:
+        if not inject and rng.random() < 0.35:
             s2 = sim_before
             for _ in range(rng.randint(1, 4)):
                 s2 = simulation_state_ops.add_request_safe(s2, w.new_request(s2)).unwrap()
@@ -138,7 +154,7 @@ def gen_case(rng: random.Random, k: int) -> Dict[str, Any]:
         "op": "shift", "id": f"h{k}", "sim": sim_enc, "parent": n.parent_table(),
         "tbl": [{"id": n.get("sched", sid), "start": a, "stop": b} for sid, a, b in rows],
         "drivers": drivers, "obs": obs, "dispatched": dispatched, "raised": raised,
-        "meta": {"t0": t0, "dt": dt, "steps": steps, "rows": [[sid, hms(a), hms(b)] for sid, a, b in rows]},
+        "meta": {"t0": t0, "dt": dt, "steps": steps, "busy": inject, "rows": [[sid, hms(a), hms(b)] for sid, a, b in rows]},
     }
 
 
